@@ -29,6 +29,8 @@ Protocol (one case = one schema + one Chaperone):
   list <strategies>                      the caller creates a list object and keeps it (list number = order of creation)
   newl <j>                               Chaperone(strategies=<the caller's list j>): a non-empty list is KEPT by the instance
   lmut <j> remove:<s>|reverse|append:<s>|clear   the caller edits its own list j in place -> the list
+  assign <strategies> / assignl <j>      instance.strategies = <a fresh list> ("-" = []) / = <the caller's list j>: the public
+                                         attribute is re-assigned, not edited in place -> the list
   cochap reg:<fn>|set:<fn>|del           register_co_chaperone(S, fn) / co_chaperones[S] = fn / co_chaperones.pop(S) on the
                                          addressed instance, for the CURRENT schema class
   misfold <fn>|-                         assign the public attribute on_misfold (fn: ok rv r0 falsy; - = None)
@@ -794,7 +796,19 @@ class C11(Prop):
         S = self.factory.get("a:int")
         spec = "a:int"
         last_report = [None]     # the FoldedProtein of the last fold / map
-        chs = []                 # every Chaperone of this case stays alive
+        class Insts(list):
+            """the instances of the case in creation order; the ADDRESSED one is known by its number (by the protocol
+            lines), never by looking the object up: code under test that hands out one object twice must not confuse
+            the bookkeeping of who was told what"""
+            cur = 0
+
+            def append(self, x):
+                list.append(self, x)
+                self.cur = len(self) - 1
+
+            def index(self, _x):
+                return self.cur
+        chs = Insts()            # every Chaperone of this case stays alive
         owns = []                # what each instance was told to use, from the protocol lines alone (for the oracle)
         ch = None
         ctor = "selr"
@@ -944,6 +958,34 @@ class C11(Prop):
                     if arg in letters:
                         letters.remove(arg)
                 emit(line, "[" + ",".join(self.strat_letter.get(x, "?") for x in real) + "]")
+            elif t[0] == "assign" and len(t) == 2 and t[1] != "none":
+                # the public attribute is RE-ASSIGNED (a fresh list written in place; "-" = the empty list)
+                c = current()
+                i = chs.index(c)
+                try:
+                    c.strategies = self.strategies_of(t[1])
+                    owns[i] = [x for x in t[1] if x in self.strat]
+                    owns_copy.pop(i, None)
+                    ctor = "".join(owns[i])
+                    emit(line, "[" + ",".join(self.strat_letter.get(x, "?") for x in c.strategies) + "]")
+                except Exception as e:
+                    emit(line, f"raise:{type(e).__name__}")
+            elif t[0] == "assignl" and len(t) == 2:
+                j = int(t[1]) if t[1].isdigit() else -1
+                c = current()
+                i = chs.index(c)
+                if not (0 <= j < len(caller_lists)):
+                    emit(line, "no-such-list")
+                    continue
+                try:
+                    real, letters = caller_lists[j]
+                    c.strategies = real
+                    owns[i] = letters                 # plain binding: the instance and the caller hold ONE object
+                    owns_copy.pop(i, None)
+                    ctor = "".join(owns[i])
+                    emit(line, "[" + ",".join(self.strat_letter.get(x, "?") for x in c.strategies) + "]")
+                except Exception as e:
+                    emit(line, f"raise:{type(e).__name__}")
             elif t[0] == "newh" and len(t) == 4 and (t[2] == "-" or t[2] in CO_FNS) and (t[3] == "-" or t[3] in MISFOLD_FNS):
                 try:
                     ch = m.Chaperone(strategies=self.strategies_of(t[1]),
@@ -1059,6 +1101,7 @@ class C11(Prop):
                 i = int(t[1]) if t[1].isdigit() else -1
                 if 0 <= i < len(chs):
                     ch = chs[i]
+                    chs.cur = i
                     ctor = "".join(owns[i])
                     emit(line, "ok")
                 else:
@@ -1156,7 +1199,8 @@ class C11(Prop):
                             != before["strategy_success"].get(STRAT_LETTERS[k].lower())]
                 info = {"op": t[0], "raw": raw, "strat": t[2], "ctor": ctor, "S": S, "result": r, "error": err,
                         "inst": chs.index(ch), "epoch": sum(1 for l in out_lines if l.split(" ")[0] in
-                                                            ("tables", "tune", "schema", "newsub", "new", "newh", "cochap", "misfold", "list", "newl", "lmut")),
+                                                            ("tables", "tune", "schema", "newsub", "new", "newh", "cochap", "misfold", "list", "newl", "lmut",
+                                                             "assign", "assignl")),
                         "used_by_stats": used, "text": text, "hooklog": list(hooklog), "cofn": cofn, "mfn": mfn, "ambiguous": ambiguous}
                 if err is not None:
                     emit(line, f"raise:{type(err).__name__} {calls}", info)
@@ -1716,6 +1760,9 @@ class C11(Prop):
                                 ["reverse", "clear", "remove:s", "remove:s", "remove:e", "append:s", "append:r", "append:l"]))
                         if rng.random() < 0.5:
                             lines.append(f"use {rng.randrange(n_inst)}")
+                    if rng.random() < 0.2:
+                        lines.append(f"assignl {rng.randrange(n_lists)}" if n_lists and rng.random() < 0.4 else
+                                     "assign " + rng.choice(["-", "s", "re", "ls", "selr", "rs", "e", self.rand_strats(rng).replace("none", "-")]))
                     if rng.random() < 0.35:
                         lines.append("tune " + rng.choice(["reverse", "clear", "remove:s", "remove:s", "remove:e", "remove:r",
                                                            "append:s", "append:r", "append:l", "remove:l"]))
@@ -1936,7 +1983,9 @@ class C11(Prop):
         clean, prose2 = '{"a": 1, "b": "x"}', 'so {"a": "2"} ok'
         for first in ["rs", "s", "e", "selr", "-"]:
             for edit in [["lmut 0 append:s"], ["lmut 0 remove:s"], ["lmut 0 clear"], ["lmut 0 reverse"], ["use 0", "tune remove:s"],
-                         ["use 1", "tune append:l", "tune reverse"], ["lmut 0 clear", "lmut 0 append:r"]]:
+                         ["use 1", "tune append:l", "tune reverse"], ["lmut 0 clear", "lmut 0 append:r"],
+                         ["use 0", "assign re", "tune append:s"], ["use 1", "assignl 1", "lmut 1 remove:s"], ["use 0", "assign -"],
+                         ["use 2", "assignl 0", "lmut 0 reverse", "use 0", "assign s"]]:
                 L = [f"schema {spec}", f"list {first}", "newl 0", "newl 0", "new none", f"list {first}", "newl 1"] + edit
                 for i in (0, 1, 2, 3):
                     L += [f"use {i}", f"foldx {hexs(clean)} none", f"fold {hexs(clean)} none", f"foldx {hexs(prose2)} -"]
@@ -1962,6 +2011,17 @@ class C11(Prop):
                 L += ["stats"]
                 wrap_cases.append({"lines": L, "note": "an instance handed to the library's own wrappers (ChaperoneLoop constructed / run, "
                                                        "BioAgent's organelle), then used directly on typographic / invisible characters"})
+        for co in ["redact", "brace"]:
+            clean, prose3, bad = '{"s": "v12", "a": 4}', 'so {"s": "w", "a": 34} ok', "nope"
+            # two Chaperones the library constructed itself (two agents' organelles), a third one of the caller's: callbacks
+            # and an in-place edit of the strategy list on ONE of them; the others are untouched
+            L = [f"schema {wspec}", "agent", "agent", "new none", "use 0", f"cochap reg:{co}", "misfold ok", "tune remove:s",
+                 f"fold {hexs(clean)} none", f"foldx {hexs(clean)} none", f"foldx {hexs(bad)} none"]
+            for i in (1, 2):
+                L += [f"use {i}", f"fold {hexs(clean)} none", f"foldx {hexs(clean)} none", f"foldx {hexs(prose3)} none",
+                      f"fold {hexs(bad)} none", f"heal 1 1/10 {hexs(bad)},{hexs(clean)}", "stats"]
+            L += ["use 0", "stats"]
+            wrap_cases.append({"lines": L, "note": "two agents' organelles and a caller's instance: configuration of one does not reach the others"})
         return [{"name": "instances the library's own wrappers were handed x typographic documents", "cases": wrap_cases},
                 {"name": "the constructor keeps a non-empty caller list: shared list objects x in-place edits", "cases": alias_cases},
                 {"name": "user callbacks: co-chaperone x on_misfold x strategies; per instance and per schema class", "cases": hook_cases},
